@@ -71,6 +71,7 @@ CANARIES = {
         ("empty-list-taken-for-an-id", "stix2/v21/base.py", "text", ["if kwargs.get('id') in (None, []):", "if kwargs.get('id') is None:"], "C06.wiring"),
         ("tuples-hashed-as-text", "stix2/base.py", "text", ["elif isinstance(value, (list, tuple)):", "elif isinstance(value, list):"], "C06.wiring"),
         ("extension-inserted-after-id", "stix2/custom.py", "text", ["            _cls_init(cls, self, kwargs)\n", "            _cls_init(cls, self, kwargs)\n            self._inner['extensions'] = {}\n"], "C06.wiring"),
+        ("two-spellings-last-one-wins", "stix2/properties.py", "text", ["            if spec_name in spec_dict and spec_dict[spec_name] != hash_v:\n", "            if False:\n"], "C06.order-free-cleaning"),
     ],
     "C07": [
         ("path-prefix", "stix2/markings/granular_markings.py", "drop-bool-operand", ["get_markings", "inherited", "drop operand 1", "startswith"], "C07.query-siblings"),
